@@ -54,7 +54,7 @@ def unusedOut (j : Json) : Json :=
 
 def step (_ : Unit) (j : Json) : Unit × Json :=
   match strD j "op" with
-  | "rename" => ((), renameOut j)
+  | "rename" => if strD j "old2" != "" then ((), Json.mkObj [("unmodelled", true)]) else ((), renameOut j)
   | "unused" => ((), unusedOut j)
   | _ => ((), Json.null)
 
